@@ -432,7 +432,8 @@ def o4(h):
     energy: grad KE(V) = M V and KE(V) = V.M.V/2 for all V; KE(V) > 0 for V != 0 when the rule has enough points
     — symbolic vertices and density"""
     _encoded(h)
-    h.bounds('one triangle with symbolic vertices (signed area > 0), rho > 0, V: all reals; '
+    h.bounds('two P1 triangles sharing an edge with symbolic vertices (both signed areas > 0, areas independent), 3-point rule: per-element block sums and the sum of element quadratic forms = 2 KE; '
+             'one triangle with symbolic vertices (signed area > 0), rho > 0, V: all reals; '
              'P1 with the 3-point and 1-point rules, straight-sided P2 with the 3-point rule, and P1 with both rules on the AXISYMMETRIC function '
              'space (vertex radii > 0; blocks sum to rho * volume of revolution = rho*2*pi*area*centroid radius) (quick); P2 with the 6-point rule (thorough)')
     h.outside('element order > 2; spatially varying density (the code assumes homogeneous density); positive definiteness is not claimed for '
@@ -479,6 +480,33 @@ def o4(h):
     run(Setup(qdeg=1, mode='axisymmetric'), '_axi_1pt', False)
     if h.thorough():
         run(Setup(degree=2, qdeg=4), '_P2_6pt', True)
+
+    # two P1 elements of DIFFERENT (symbolic) areas sharing an edge: each element's mass uses ITS OWN quadrature weights
+    # (element 0's data must not be reused for element 1), and the element masses add up to the mass of the kinetic energy
+    S2 = Setup(nel=2, blocks=TWO_BLOCKS())
+    conns2 = [[0, 1, 2], [1, 3, 2]]
+
+    def f2(X, rho, V):
+        d = S2.dyn(X, 1.0, 0.25, rho, 0.25, 0.5)
+        M = d.compute_element_masses()
+        return M[0], M[1], d.compute_output_kinetic_energy(V)
+    ex2 = dict(X=S2.Xex, rho=1.5, V=S2.Z + 0.3)
+    smp2 = lambda rng: [S2.rand_tri(rng), rng.uniform(0.5, 2.0), rng.normal(size=(4, 2))]
+    c2 = Case(h, f2, ex2, sampler=smp2, label='masses_2el', validate=1)
+
+    def spec2(i, o):
+        X, rho, V = i['X'], s0(i['rho']), i['V']
+        goals, quad = [], []
+        for e in range(2):
+            M = o[e]
+            ra = v_mul(rho, v_mul(0.5, area2(X[conns2[e]])))
+            for k in range(2):
+                blk = v_sum([M[a, k, b, k] for a in range(3) for b in range(3)])
+                goals.append(Le([v_abs(v_sub(blk, ra))], v_mul(1e-12, v_abs(ra)), name='element%d_component%d_block_sums_to_rho_times_its_own_area' % (e, k), scale=ra))
+            quad += [v_mul(V[conns2[e][a], k], v_mul(M[a, k, b, l], V[conns2[e][b], l])) for a in range(3) for k in range(2) for b in range(3) for l in range(2)]
+        goals.append(Eq(v_mul(2.0, s0(o[2])), v_sum(quad), name='KE_is_half_sum_of_element_quadratic_forms'))
+        return _box(i, S2), goals
+    c2.prove('mass_2el', spec2, cap=60, order=('nlsat', 'core'))
 
 
 # =========================================================================================== O5
